@@ -142,6 +142,17 @@ Proof. exact consensus_market_status_from_a_correct_data_source. Qed.
 Print Assumptions C08_consensus_max_finalized_from_a_correct_data_source.
 Print Assumptions C08_consensus_market_status_from_a_correct_data_source.
 
+(* what a correct v2-v4 node sends fits MaxObservationLength as the real factory declares it to libocr (the constants are
+   regenerated from /repo on every run: MercMaxObservationLength2/3/4), so libocr does not discard it for its size *)
+Theorem C08_correct_observation_within_declared_length : forall ver base now fail ds m,
+  ver = 2 \/ ver = 3 \/ ver = 4 -> 0 <= now -> ds_typed ds ->
+  merc_observe234 ver base now fail ds = Ok m ->
+  Z.of_nat (length (merc_encode234 ver m)) <= merc_limit ver.
+Proof. exact merc_observation_within_limit. Qed.
+Print Assumptions C08_correct_observation_within_declared_length.
+Example C08_gen_observation_limits : merc_size 2 <= merc_limit 2 /\ merc_size 3 <= merc_limit 3 /\ merc_size 4 <= merc_limit 4.
+Proof. vm_compute. repeat split; discriminate. Qed.
+
 (* the fee a correct node sends: 100 x the integer nearest to baseUSDFee x 10^34 / price, non-negative for a
    non-negative base fee *)
 Theorem C08_calc_fee_nearest : forall price base fee, price <> 0 -> dzc base <> 0 ->
